@@ -39,7 +39,9 @@ def cases(tier, seed):
         positions = sorted(A.tree_vars(tree))
         for inp in KINDS:
             for numbering in ["id", "h8"] + (["gap", "h16"] if thorough else []):
-                if not thorough and numbering == "h8" and inp not in ("emb", "gau", "cat-logits"):
+                if not thorough and numbering == "h8" and inp not in ("emb", "gau"):
+                    continue
+                if not thorough and nv == 3 and inp in ("cat-probs", "gau-lp", "bin-probs") and style != "cpt":
                     continue
                 ids = A.NUMBERINGS[numbering]
                 k = 2 if prod == "had" else (2 if nv <= 2 else 1)
